@@ -18,9 +18,9 @@ from dv.evidence import Recorder, finish
 from checks.nodecommon import Result, record, generic_replay
 
 PID = "C07"
-RULE = ("histories over 31 event symbols x 1..3 connections (conn 0 optionally outbound): handshakes, "
+RULE = ("histories over 33 event symbols x 1..3 connections (conn 0 optionally outbound): handshakes, "
         "good requests, requests with a missing required AVP / unknown command / unknown application / "
-        "foreign realm / no Destination-Realm, T-flagged repeats, answers nobody waits for, answers "
+        "foreign realm / no Destination-Realm / a routing-relevant AVP (Origin-Host, Origin-Realm, Destination-Realm, Destination-Host, Session-Id) repeated in a typed or untyped command, T-flagged repeats, answers nobody waits for, answers "
         "lacking Origin-Host or Result-Code (CEA, DWA, DPA, application), requests held by the application and "
         "answered later, requests answered with Experimental-Result instead of Result-Code (also after the connection was lost and re-established, with the peer spelling its "
         "identity in another case), node-originated requests with "
@@ -35,10 +35,10 @@ ASSUME = ["identifier values 0 and 2^32-1 are valid and are used (each special k
 SYMS = ["HS", "REQ", "REQ_missing", "REQ_unknown_cmd", "REQ_unknown_app", "REQ_foreign_realm", "REQ_no_realm",
         "REQ_T", "REQ_raise", "ANS_stray", "ANS_no_origin", "ANS_no_result", "CEA_no_origin", "CEA_stray",
         "DWA_stray", "DWA_no_origin", "DPA_stray", "DPA_no_result", "DWR", "DPR", "NODE_REQ", "NODE_REQ_ANS",
-        "ADV2", "ADV_IDLE", "REQ_hold", "SUBMIT", "RECONNECT", "REQ2_seg", "DWR_REQ_seg", "REQ_DWR_seg", "REQ_exp_result"]
+        "ADV2", "ADV_IDLE", "REQ_hold", "SUBMIT", "RECONNECT", "REQ2_seg", "DWR_REQ_seg", "REQ_DWR_seg", "REQ_exp_result", "REQ_dup_avp", "REQ_dup_avp_T"]
 DEFECTIVE = {"ANS_stray", "ANS_no_origin", "ANS_no_result", "CEA_no_origin", "CEA_stray", "DWA_stray",
              "DWA_no_origin", "DPA_stray", "DPA_no_result", "REQ_missing", "REQ_unknown_cmd", "REQ_unknown_app",
-             "REQ_foreign_realm", "REQ_no_realm", "REQ_raise", "REQ_T"}
+             "REQ_foreign_realm", "REQ_no_realm", "REQ_raise", "REQ_T", "REQ_dup_avp", "REQ_dup_avp_T"}
 
 
 def world_cfg(case):
@@ -137,6 +137,16 @@ def evaluate(case) -> Result:
                 w.feed_msg(c, dict(base, k="REQ", bare=True))
             elif s == "REQ_unknown_cmd":
                 w.feed_msg(c, dict(base, k="REQ", code=999, bare=True))
+            elif s in ("REQ_dup_avp", "REQ_dup_avp_T"):
+                # malformed but decodable: a routing-relevant AVP occurs twice more, in a typed command or in one
+                # without a python class (where a repeated AVP becomes a list attribute)
+                from dv import refcodec as R_
+                code_, val_ = [(264, host.encode()), (296, b"example"), (283, b"example"), (293, W.NODE_HOST.encode()),
+                               (263, b"s;1")][i % 5]
+                dup = R_.enc_avp(code_, 0, 0x40, val_).hex()
+                untyped = (i // 5) % 2 == 0
+                res.classes.append(f"dup-avp:{code_}:{'untyped' if untyped else 'typed'}")
+                w.feed_msg(c, dict(base, k="REQ", extra=[dup, dup], T=s.endswith("_T"), **({"code": 999} if untyped else {})))
             elif s == "REQ_unknown_app":
                 w.feed_msg(c, dict(base, k="REQ", app=9999))
             elif s == "REQ_foreign_realm":
@@ -293,7 +303,7 @@ def run(tier, scale=1.0):
     rec = Recorder(PID)
     for d in hyp.pool_run(shard_main, (tier, scale)):
         rec.merge(d)
-    required = {f"sym:{s}": 1 for s in SYMS} | {"ids:zero-hbh": 1, "ids:zero-e2e": 1, "ids:both-zero": 1, "nconn:3": 1, "app:threading": 1, "out0:True": 1, "defective": 1}
+    required = {f"sym:{s}": 1 for s in SYMS} | {"dup-avp:264:untyped": 1, "dup-avp:283:untyped": 1, "dup-avp:264:typed": 1, "ids:zero-hbh": 1, "ids:zero-e2e": 1, "ids:both-zero": 1, "nconn:3": 1, "app:threading": 1, "out0:True": 1, "defective": 1}
     return finish(rec, tier=tier, level="exploration", rule=RULE, assumptions=ASSUME, t0=t0,
                   required_classes=required)
 
